@@ -5,6 +5,21 @@ import json, os
 ROOT = os.path.dirname(os.path.dirname(os.path.abspath(__file__)))
 
 CHECKS = {
+ "C08": dict(
+  technique="runtime monitor: scripted-host event log (defer_op calls with arguments) + operand-depth shadow model, over the complete instruction x type-pair x host matrix",
+  text="The finite matrix is enumerated completely every run: 31 binary and 10 unary instructions x every ordered pair of representative values of all 19 types x both stores x host absent/declining/accepting, each executed as a one-instruction program through execute_current_instruction under the delegating monitor. For cells in the pinned undefined set the monitor demands exactly one defer_op call with the operation and both (type,address) operands in source order, unit after a decline, the host's value after an accept and exactly one result; every cell is held to the generic clauses (at most one defer, UnsupportedOpTypes never escapes). Exhaustive over types and instructions; values within a type are representatives.",
+  note="trusts the definedness table of DESIGN Appendix C (transcribed from the runtime's explicit arms) as the statement of which combinations have a defined result",
+  design="DESIGN.md §5 C08, Appendix C"),
+ "C11": dict(
+  technique="runtime monitor: reference-model oracle (structural equality on read-back values) + relational-law checker over observed results + sentinel-under-operands balance check",
+  text="All ordered pairs of 334 small values (27 leaves of 14 kinds and every width<=2 pair/list/concatenation over 9 bases) exhaustively, plus random trees (depth<=3 quick, 5 thorough) each paired with an identical copy, a reshaped equivalent, a one-point mutant or an unrelated tree, built in four construction orders; Equal and NotEqual are executed on both stores with a sentinel operand underneath and compared with an independent structural equality; symmetry, negation and transitivity are checked on the observed answers.",
+  note="trusts the reference equality incl. its list/concatenation flattening rule; NaN and slices are outside the generator",
+  design="DESIGN.md §5 C11"),
+ "C12": dict(
+  technique="runtime monitor: reference-model oracle (natural total order) + relational-law checker (trichotomy, <= is not >, < iff reversed >) over observed results",
+  text="All ordered pairs within number lattice (ints, floats, NaN/inf, int/float neighbours), all strings of length<=2 (3 thorough) over {a,b,é,😀}, byte lists, chars, bytes and cross-type representatives of all 19 types, plus random shared-prefix pairs; the four ordering instructions and Equal run on both stores and are compared with the natural order (numeric / lexicographic, shorter prefix first), the all-false rule for other combinations and unit for NaN.",
+  note="slice/slice pairs are only checked for absence of failure (not settled by the property)",
+  design="DESIGN.md §5 C12"),
  "C09": dict(
   technique="runtime monitor: reference-model oracle (i128/f64) over boundary-lattice + random operand pairs at the GarnishNumber boundary and at the instruction boundary; overflow-check (mon) and release builds",
   text="Every pair of a 193-value i32 boundary lattice x all 12 binary operations, a 50-value float/mixed lattice (zeros, subnormals, 2^31/2^53 edges, huge, inf, NaN), unary operations, and random pairs are executed on the real SimpleNumber methods and through the arithmetic/bitwise instructions on both stores; each observed result is compared with an independent exact-or-unit reference. Held-on-observed, not a proof: operands outside lattice+sample are not explored.",
